@@ -92,6 +92,11 @@ type clientResult struct {
 
 // feedClient lets httpgrpc.Channel decode body as the reply of a server-streaming call.
 func feedClient(body io.ReadCloser, status int) clientResult {
+	return feedClientKind(body, status, ServerStream)
+}
+
+// feedClientKind: the same for a chosen RPC kind (a single-response kind receives once).
+func feedClientKind(body io.ReadCloser, status int, kind Kind) clientResult {
 	var res clientResult
 	ch := &httpgrpc.Channel{BaseURL: mustURL("http://c07.test/"), Transport: rtFunc(func(r *http.Request) (*http.Response, error) {
 		go io.Copy(io.Discard, r.Body)
@@ -104,13 +109,23 @@ func feedClient(body io.ReadCloser, status int) clientResult {
 	var ms0, ms1 runtime.MemStats
 	runtime.ReadMemStats(&ms0)
 	res.pan = guard(func() {
-		st, err := ch.NewStream(ctx, ServerStream.StreamDesc(), ServerStream.Method())
+		st, err := ch.NewStream(ctx, kind.StreamDesc(), kind.Method())
 		if err != nil {
 			res.err = err
 			return
 		}
 		st.SendMsg(&tpb.Message{})
 		st.CloseSend()
+		if !kind.ServerStreams() {
+			m := new(tpb.Message)
+			if err := st.RecvMsg(m); err != nil {
+				res.err = err
+				return
+			}
+			res.msgs = append(res.msgs, m)
+			res.err = io.EOF // success of a single-response call
+			return
+		}
 		for i := 0; i < 10000; i++ {
 			m := new(tpb.Message)
 			if err := st.RecvMsg(m); err != nil {
@@ -164,6 +179,10 @@ func checkC07(e *core.Env) {
 		name string
 		err  error
 	}{{"eof", io.EOF}, {"unexpected-eof", io.ErrUnexpectedEOF}, {"reset", errors.New("read tcp: connection reset by peer")}}
+
+	svc := &Service{}
+	srv := httpgrpc.NewServer()
+	srv.RegisterService(&ScriptedDesc, svc)
 
 	nBodies := e.N(20, 300)
 	e.Cases("client-cut", nBodies, func(i int, r *rand.Rand) {
@@ -224,6 +243,60 @@ func checkC07(e *core.Env) {
 			e.Sample(map[string]any{"phase": "client-cut", "body_bytes": len(full), "messages": len(msgs), "trailer_code": tr.Code, "cuts_tried": (len(full) + 1) * 3})
 		}
 	})
+
+	// single-response (client-streaming) replies cut at every offset
+	e.Cases("client-cut-single", e.N(10, 120), func(i int, r *rand.Rand) {
+		m := genMsg(r, fmt.Sprintf("c07single-%d", i), false)
+		if len(m.Payload) > 100 {
+			m.Payload = m.Payload[:100]
+		}
+		tr := &httpgrpc.HttpTrailer{Message: "OK"}
+		if i%3 == 0 {
+			tr = &httpgrpc.HttpTrailer{Code: int32(1 + r.Intn(16)), Message: "failed"}
+		}
+		fb := encodeStream([]*tpb.Message{m}, tr)
+		for cut := 0; cut <= len(fb.bytes); cut++ {
+			for _, end := range endings {
+				res := feedClientKind(&cutBody{data: append([]byte{}, fb.bytes[:cut]...), step: cut % 3, endErr: end.err}, 200, ClientStream)
+				e.Eval(fmt.Sprintf("client-cut-single|%d|%s|%v", cut*6/(len(fb.bytes)+1), end.name, tr.Code == 0), true)
+				e.Count("cuts", 1)
+				w := map[string]any{"body_len": len(fb.bytes), "cut": cut, "ending": end.name, "trailer_code": tr.Code, "got_err": fmt.Sprint(res.err), "got_messages": len(res.msgs)}
+				judgeClientDecode(e, "client-cut-single/"+end.name, res, fb, cut, w)
+			}
+		}
+	})
+
+	unaryCutPhase(e, "client", e.N(12, 150))
+
+	if e.Thorough() {
+		// a unary request whose first field ends exactly at the per-message limit: nothing after it may be lost
+		e.Cases("big-unary-request", 2, func(i int, r *rand.Rand) {
+			limit := int(perMessageLimit)
+			m := &tpb.Message{Payload: make([]byte, limit-5), Count: 77, Headers: map[string][]byte{"after": []byte("the limit")}}
+			body, _ := proto.MarshalOptions{Deterministic: true}.Marshal(m)
+			sc := &Script{Kind: Unary, UnaryReq: m, Resp: &tpb.Message{Payload: []byte("ok")}}
+			run := svc.NewRun(sc, "http-direct")
+			defer svc.Forget(run)
+			req := httptest.NewRequest("POST", Unary.Method(), bytes.NewReader(body))
+			req.Header.Set("Content-Type", httpgrpc.UnaryRpcContentType_V1)
+			req.Header.Set("X-Verif-Run", run.ID)
+			rec := httptest.NewRecorder()
+			pan := guard(func() { srv.ServeHTTP(rec, req) })
+			e.Eval(fmt.Sprintf("big-unary-request|%d", i), true)
+			w := map[string]any{"body_len": len(body), "http_status": rec.Code}
+			if pan != "" {
+				e.Violate("server/big-unary/panic", trunc(pan, 400), w)
+				return
+			}
+			hr := run.Rets("h", "recv")
+			if len(hr) > 0 && hr[0].Msg != nil && rec.Code == 200 {
+				got := hr[0].Msg
+				if got.Count != 77 || string(got.Headers["after"]) != "the limit" || len(got.Payload) != limit-5 {
+					e.Violate("server/big-unary/fabricated", fmt.Sprintf("a %d-byte unary request was accepted but the handler got count=%d headers=%d payload=%d bytes", len(body), got.Count, len(got.Headers), len(got.Payload)), w)
+				}
+			}
+		})
+	}
 
 	// hostile length prefixes at each frame position (client)
 	hostile := []int32{0, -1, -2147483648, 2147483647, perMessageLimit - 1, perMessageLimit, perMessageLimit + 1, 101 << 20, 200 << 20, -(perMessageLimit + 1), -2147483647, 1 << 30}
@@ -311,9 +384,6 @@ func checkC07(e *core.Env) {
 	})
 
 	// ---- server side ----
-	svc := &Service{}
-	srv := httpgrpc.NewServer()
-	srv.RegisterService(&ScriptedDesc, svc)
 	serve := func(body []byte, end error) (hr []Event, herr error, returned bool, code int, trailers int, pan string, alloc uint64) {
 		sc := &Script{Kind: ClientStream, Handler: []Op{{Op: "recvall"}, {Op: "send", Msg: &tpb.Message{Payload: []byte("resp")}}}}
 		run := svc.NewRun(sc, "http-direct")
@@ -440,6 +510,53 @@ func checkC07(e *core.Env) {
 		}
 		if (pfx > int32(tail) || pfx < 0) && got > nm {
 			e.Violate(sig+"/fabricated", fmt.Sprintf("handler received %d messages, %d were encoded before the hostile prefix %d", got, nm, pfx), w)
+		}
+	})
+}
+
+// unaryCutPhase: the reply body of a unary call breaks off after any number of bytes (as net/http reports
+// it: the read fails with io.ErrUnexpectedEOF or a connection error). The call must fail; a complete body
+// must give exactly the encoded message.
+func unaryCutPhase(e *core.Env, sigPrefix string, n int) {
+	e.Cases("unary-cut", n, func(i int, r *rand.Rand) {
+		m := genMsg(r, fmt.Sprintf("ucut-%d", i), false)
+		if len(m.Payload) > 120 {
+			m.Payload = m.Payload[:120]
+		}
+		m.Count = int32(1 + r.Intn(1000))
+		m.Headers = map[string][]byte{"k": []byte("v")}
+		full, _ := proto.MarshalOptions{Deterministic: true}.Marshal(m)
+		for cut := 0; cut <= len(full); cut++ {
+			for _, end := range []error{io.ErrUnexpectedEOF, errors.New("read tcp: connection reset by peer")} {
+				complete := cut == len(full)
+				var body io.ReadCloser = &cutBody{data: append([]byte{}, full[:cut]...), step: cut % 3, endErr: end}
+				if complete {
+					body = &cutBody{data: append([]byte{}, full...), step: cut % 3, endErr: io.EOF}
+				}
+				ch := &httpgrpc.Channel{BaseURL: mustURL("http://ucut.test/"), Transport: rtFunc(func(rq *http.Request) (*http.Response, error) {
+					h := http.Header{}
+					h.Set("Content-Type", httpgrpc.UnaryRpcContentType_V1)
+					h.Set("Content-Length", fmt.Sprint(len(full)))
+					return &http.Response{StatusCode: 200, Header: h, Body: body, ContentLength: int64(len(full)), Request: rq, ProtoMajor: 1, ProtoMinor: 1}, nil
+				})}
+				out := new(tpb.Message)
+				var err error
+				pan := guard(func() { err = ch.Invoke(context.Background(), Unary.Method(), &tpb.Message{}, out) })
+				e.Eval(fmt.Sprintf("unary-cut|%d|%v", cut*8/(len(full)+1), complete), true)
+				e.Count("cuts", 1)
+				w := map[string]any{"body_len": len(full), "cut": cut, "ending": fmt.Sprint(end), "client_err": fmt.Sprint(err), "got": msgDesc(out)}
+				switch {
+				case pan != "":
+					e.Violate(sigPrefix+"/unary-cut/panic", trunc(pan, 400), w)
+				case complete && (err != nil || !sameMsg(out, m)):
+					e.Violate(sigPrefix+"/unary-cut/complete-failed", fmt.Sprintf("complete unary reply: err=%v, message equal=%v", err, sameMsg(out, m)), w)
+				case !complete && err == nil:
+					e.Violate(sigPrefix+"/unary-cut/truncation-as-success", fmt.Sprintf("unary reply body broke off after %d of %d bytes (%v); Invoke returned nil with message {%s}", cut, len(full), end, msgDesc(out)), w)
+				}
+				if complete {
+					break
+				}
+			}
 		}
 	})
 }
